@@ -182,12 +182,24 @@ pub fn run(ctx: &mut Ctx, replay: Option<&[String]>) {
     }
     // large sparse matrices (the shapes of real codes: rows x columns beyond 2^30 while the number of ones stays small): written and
     // parsed back by the implementation, compared there (the list-based model is not run on them)
-    for (nr, nc, per_col) in [(40_000usize, 40_000usize, 3usize), (21_600, 64_800, 3), (50_000, 30_000, 0), (70_000, 20_000, 2)] {
+    for (nr, nc, per_col) in [(40_000usize, 40_000usize, 3usize), (21_600, 64_800, 3), (50_000, 30_000, 0), (70_000, 20_000, 2), (3, 70_000, 2), (20_000, 66_000, 2)] {
         let mut h = SparseMatrix::new(nr, nc);
         for c in 0..nc { for _ in 0..per_col { h.insert(rng.below(nr), c); } }
         let mut verdict = "roundtrip-ok".to_string();
         for (form, text) in [("padded", h.alist()), ("unpadded", h.alist_no_padding())] {
             let h2 = h.clone();
+            // the parser only reads the column lists: the row lists of the text (the last `rows` lines: sorted 1-based column indices,
+            // zeros only as padding) are judged here
+            let lines: Vec<&str> = text.lines().collect();
+            if lines.len() != 4 + nc + nr { verdict = format!("line-count-{}", form); }
+            else {
+                for r in 0..nr {
+                    let got: Vec<usize> = lines[4 + nc + r].split_whitespace().filter_map(|t| t.parse::<usize>().ok()).filter(|&x| x != 0).collect();
+                    let mut want: Vec<usize> = h.iter_row(r).map(|&c| c + 1).collect();
+                    want.sort_unstable();
+                    if got != want { verdict = format!("row-lists-wrong-{}", form); break; }
+                }
+            }
             match guarded(move || SparseMatrix::from_alist(&text)) {
                 Ok(Ok(g)) => {
                     let same = g.num_rows() == h2.num_rows() && g.num_cols() == h2.num_cols()
